@@ -655,6 +655,15 @@ fn gen(nfiles: usize, nmut: usize, nsoup: usize, ngram: usize) {
         "fn f(x: Int64, y: Int64 = 1) {} fn g() { f(1); f(y = 2, x = 1); f(1, 2, 3); f(x = 1, 2); }",
         "fn f(args: Int64...) {} fn g() { f(); f(1); f(1, 2, 3); f(true); f(args = 1); }",
         "fn f() { let a = Array[Int64]::new(); a(0) = 1; a(0)(1); a(true); a(0, 1); a.size(1); Array::new(); Array[]::new(); Array[Int64, Int64]::new(); }",
+        "fn f() { \"\\q\"; \"\\u{zz}\"; \"\\u{110000}\"; \"\\x\"; '\\q'; '\\u{12'; }",
+        "fn f() { -1u8; -128i8; let x: UInt8 = -1; 300u8; -(1u8); }",
+        "enum A { X } enum A { Y } let g: Int64 = 1; let g: Int64 = 2; mod m {} mod m {} trait T {} trait T {} class T fn g() {} struct m",
+        "fn f() { let l = |a: Int64, b: Int64, c: Int64, d: Int64, e: Int64, f: Int64, g: Int64, h: Int64, i: Int64, j: Int64, k: Int64, l: Int64, m: Int64, n: Int64, o: Int64, p: Int64, q: Int64, r: Int64| a; }",
+        "class C fn f(c: C, l: (): Int64) { \"${c}\"; \"${l}\"; \"${()}\"; \"${(1, 2)}\"; \"${f}\"; \"${C}\"; }",
+        "fn f[T](x: T) { x.to_string(); x == x; x + x; } fn g[T: std::traits::Add](x: T): T { x + x } fn h[T](x: T): Int64 { x.hash() }",
+        "fn f(x: ref Int64) { x = 2; } fn g(x: ref mut Int64) { x = 2; } struct S { a: Int64 } fn h(s: ref S) { s.a = 1; } fn k() { let s = S(a = 1); let r = ref s; r.a = 2; }",
+        "fn f(): Int64 { let x: Int64 = if true { 1 } else { return 2 }; let y = loop { break 1; }; x }",
+        "fn f() { a::b(); std::string::String::nope::deeper(); Int64::max::value; f::g(); (1)::x; }",
     ];
     for t in fixed {
         em.text("fixed", t);
